@@ -239,6 +239,50 @@ def import_toctou_job(j):
     return dict(viols=v, outcome=("import-toctou", res.rc, False))
 
 
+def samepath_job(j):
+    """the 'unchanged file' shortcut (same path or same inode, same size, same time-stamp): a file rewritten since - in place (same
+    inode) or replaced by rename (new inode) - with the same size and the same SECONDS but another sub-second part is not the recorded
+    file: the sync has to read it"""
+    levels, rec_nsec, new_nsec, how, uuid, seed = j
+    cfg = Config(levels=levels, ndisks=2, uuid=uuid)
+    v = []
+    where = "same path, size and seconds; sub-second %d -> %d; %s; inodes %s" % (rec_nsec, new_nsec, how, "trusted" if uuid else "ignored")
+    with labmod.Lab(cfg, seed=seed) as L:
+        for d in cfg.disknames:
+            X.apply_op(L, ("write", d, "anchor", 700, 0))
+        sec = labmod.T0 + 9000
+        X.apply_op(L, ("writeat", "d1", "dir/a", SIZE, 0, sec * 10**9 + rec_nsec))
+        X.apply_op(L, ("writeat", "d2", "dir/b", SIZE, 0, sec * 10**9 + rec_nsec))
+        r = L.run("sync")
+        assert r.rc == 0, r.text()
+        for d, n in (("d1", "dir/a"), ("d2", "dir/b")):
+            newb = X.file_bytes(L, n, SIZE, 1)
+            if how == "rename":
+                L.rm(d, n)
+                L.write(d, n, newb, sec * 10**9 + new_nsec)
+            else:
+                with open(L.p(d, n), "r+b") as fh:
+                    fh.write(newb)
+                os.utime(L.p(d, n), ns=(sec * 10**9 + new_nsec,) * 2)
+        res = L.run("sync")
+        c = L.content()
+        bs = c.block_size
+        for d in c.disks.values():
+            for f in d.files:
+                data = L.read(d.name.decode(), f.sub.decode())
+                for i, (st, pos, h) in enumerate(f.blocks):
+                    if st == C.BLK and P.block_hash(c, pos, data[i * bs:(i + 1) * bs]) != h:
+                        v.append(dict(kind="block-recorded-synced-with-foreign-hash", where=where, file=f.sub.decode(), block=i))
+                        break
+        for o in X.c06(L, where):
+            o["kind"] = "c06-" + o["kind"]
+            v.append(o)
+        chk = L.run("check", "-a")
+        if res.rc == 0 and chk.rc != 0:
+            v.append(dict(kind="check-fails-after-successful-sync", where=where, out=chk.text()[-300:]))
+    return dict(viols=v, outcome=("samepath", res.rc, False))
+
+
 def uuid_job(j):
     """the move shortcut (same inode, size, time-stamp) after the disks' UUID changed: inode numbers of the old file system mean nothing,
     a file that happens to own the number another look-alike file had must be read, not trusted"""
@@ -337,6 +381,14 @@ def run(ctx):
         ctx.outcome(r["outcome"])
         for v in r["viols"]:
             ctx.violation("C19/uuid-change/%s" % v["kind"], "%s: %s" % (v["kind"], v.get("where")), dict(uuid_change=True, levels=lv, violation=v))
+    sp = [(lv, a, b, how, u, ctx.seed) for lv in levels[:1] for a, b in ((0, 250000000), (500000000, 0), (500000000, 250000000), (0, 1))
+          for how in ("in-place", "rename") for u in (False, True)]
+    for j, r in par.pmap(samepath_job, sp, deadline=ctx.deadline):
+        evals += 3
+        ctx.nontrivial(("samepath",) + j[:5])
+        ctx.outcome(r["outcome"])
+        for v in r["viols"]:
+            ctx.violation("C19/same-path/%s" % v["kind"], "%s: %s" % (v["kind"], v.get("where")), dict(samepath=list(j[:5]), violation=v))
     ctx.set("evaluations", evals)
     ctx.set("scenarios", done)
     ctx.set("states", done)
@@ -353,6 +405,11 @@ def replay(r):
         return not out["viols"]
     if r.get("stale_import"):
         out = stale_import_job((r["levels"], r["source"], 0))
+        for v in out["viols"]:
+            print("  ", v)
+        return not out["viols"]
+    if r.get("samepath"):
+        out = samepath_job(tuple(r["samepath"]) + (0,))
         for v in out["viols"]:
             print("  ", v)
         return not out["viols"]
